@@ -416,9 +416,12 @@ Fixpoint free_gblocks (c : cfg) (fuel : nat) (p : option nat) : P unit :=
 
 (** clear(): for cur in array_: cur->clear(); for p = extended_list_.load(); p; { next = p->next_block_;
              a.free( p ); p = next; }  extended_list_.store( nullptr ); *)
-Definition hp_clear (c : cfg) (r : nat) : P unit :=
+(** [det]: ghost events of the caller, emitted in the step of the extended_list_ load: from there on the
+    blocks are given back one by one and the cells of the record no longer count as guards *)
+Definition hp_clear (c : cfg) (r : nat) (det : list ev) : P unit :=
   clear_slots r 0 (eff_H c) ;;;
   p <- act (a_ld_ext r) ;;
+  emit det ;;;
   free_gblocks c (c_spin c) p ;;;
   act (a_st_ext r None).
 
@@ -699,8 +702,8 @@ Definition alloc_thread_data (c : cfg) (mytid : nat) : P nat :=
                                  while ( free_block ) { next = free_block->next_; retired_allocator_.free( free_block );
                                                         free_block = next; --block_count_; } } }
       thread_id_.store( null ); *)
-Definition free_thread_data (c : cfg) (r mytid : nat) (help : bool) : P unit :=
-  hp_clear c r ;;;
+Definition free_thread_data (c : cfg) (r mytid : nat) (help : bool) (det : list ev) : P unit :=
+  hp_clear c r det ;;;
   scan c r ;;;
   (if help then help_scan c r mytid else ret tt) ;;;
   e <- loc (fun g => (g, rt_empty g r)) ;;
@@ -741,7 +744,7 @@ Fixpoint detach_all (c : cfg) (fuel : nat) (mytid : nat) (node : option nat) : P
       | S f =>
           nx <- loc (fun g => (g, r_next (grec g h))) ;;
           tid <- act (a_ld_tid h) ;;
-          (if Nat.eqb tid 0 then ret tt else free_thread_data c h mytid false) ;;;
+          (if Nat.eqb tid 0 then ret tt else free_thread_data c h mytid false []) ;;;
           detach_all c f mytid nx
       end
   end.
@@ -769,7 +772,7 @@ Fixpoint destroy_recs (c : cfg) (fuel : nat) (node : option nat) : P unit :=
                                   end)) ;;
           emit (map ev_dispose ps) ;;;
           rt_fini c h ;;;
-          hp_clear c h ;;;
+          hp_clear c h [] ;;;
           nx <- loc (fun g => (g, r_next (grec g h))) ;;
           act (a_st_free h true) ;;;
           destroy_recs c f nx
@@ -841,7 +844,7 @@ Definition run_op (c : cfg) (t : nat) (l : L) (o : op) : P L :=
       inv 2 [] ;;;
       match l_tls l with
       | None => skip ;;; ret l
-      | Some r => emit [ev_relall; ev_det r] ;;; free_thread_data c r mytid true ;;; rsp 0 ;;; ret (mkL None [])
+      | Some r => free_thread_data c r mytid true [ev_relall; ev_det r] ;;; rsp 0 ;;; ret (mkL None [])
       end
   | OGalloc j =>
       inv 3 [j] ;;;
